@@ -65,7 +65,7 @@ def value_shapes():
 def unit_container(U):
     it = Interp()
     for name, mk, mode in value_shapes():
-        for via in ("attributes", "feature", "update", "init"):
+        for via in ("attributes", "feature", "update", "init", "setdefault"):
             def run(ctx, mk=mk, via=via):
                 v = mk()
                 a = object.__new__(Attributes)
@@ -78,6 +78,8 @@ def unit_container(U):
                     it.call(F.Feature.__setitem__, [f, "Name", v], {})
                 elif via == "update":
                     it.call(Attributes.update, [a, {"Name": v}], {})
+                elif via == "setdefault":
+                    it.call(getattr(Attributes, "setdefault"), [a, "Name", v], {})       # absent key: stored like an assignment
                 else:
                     a = it.call(Attributes, [{"Other": old["Other"], "Name": v}], {})
                 ctx.stash.update(a=a, v=v, old=old)
@@ -105,6 +107,8 @@ def unit_container(U):
                         f["Name"] = val
                     elif via == "update":
                         a.update({"Name": val})
+                    elif via == "setdefault":
+                        a.setdefault("Name", val)
                     else:
                         a = Attributes({"Other": ["o"], "Name": val})
                     exp = val if isinstance(val, (list, tuple)) else [val]
